@@ -989,6 +989,11 @@ def run(tier, seed, only):
     except (AttributeError, KeyError, IndexError, TypeError, ValueError) as e:
         ctx.add(name="smt:c08_translate_column_types", engine="smt:mir2smt", status="inconclusive", reason=f"translator failed on the current source ({type(e).__name__}: {e})", functions="scylla-cql/src/frame/response/result.rs")
     try:
+        from . import smt_c08alloc
+        smt_c08alloc.run(ctx, cql, reg2, tier)
+    except Exception as e:
+        ctx.add(name="smt:c08_translate_allocations", engine="smt:mir2smt", status="inconclusive", reason=f"{type(e).__name__}: {e}"[:500], functions="scylla-cql/src/frame/response/result.rs")
+    try:
         from . import smt_c08vec
         smt_c08vec.run(ctx, core, rustenum.Registry(["/repo/scylla-cql-core/src/frame/response/result.rs"]), tier)
     except Exception as e:
